@@ -1,5 +1,6 @@
 import RisorModel.Util
 import RisorModel.C16.Model
+import RisorModel.C16.Alias
 /-!
 Line-protocol front end of the C16 model (requests after the leading `C16` field).
 
@@ -16,6 +17,16 @@ Line-protocol front end of the C16 model (requests after the leading `C16` field
        keysof,r  mitems,r  lfilter,r,ne|eq|all|nothing,v  leach,r  leachacc,r,acc  lchunk,r,n
      tag = `map` / `bytes` when the step is one on which today's code is known to leave the
      reference semantics (see `Risor.C16.findingTag`), `-` otherwise
+
+  slicego  <start|_>  <stop|_>  <n>     the function TRANSLATED from object/list.go
+     `ResolveIntSlice` (`resolveIntSliceGo`) on two bounds (values as above, `_` = omitted) and a
+     length; reply: ok <TAB> start <TAB> stop | err <TAB> type|slice
+  insact  <index>  <n>     the translated `(*List).Insert` (`insertAct`); reply: the position the
+     new item gets: 0 (prepend) | n (append) | k (shift)
+  alias  <lists>  <ops>     lists of ints WITH Go backing arrays (`Risor.C16.Alias`)
+     lists: `;`-separated `L` + v,v,…     ops: `;`-separated  a,l,v | s,l,i,v | p,l,i | sl,l,start|_,stop|_
+     | c,l | e,l,other | k,l,r | x,l      reply: ok <TAB> per step `|`-separated  o|e ; view ; distinct|SHARED
+     (view = lists `/`-separated; distinct = no two list objects use one backing array)
 
   sortspec  <v,v,…>  <v,v,…>     is the second list the reference sort (`Spec.isSortOf`) of the
      first, a list of numbers?   reply: ok <TAB> sorted | not-the-sort;expected=…
@@ -254,7 +265,63 @@ def runSeq (hi hs : Heap) : List Op → List String
     let line := a ++ ";" ++ sa ++ ";" ++ tag ++ ";" ++ (if a == b && sa == sb then "=" else b ++ ";" ++ sb)
     line :: runSeq hi' hs' ops
 
+def parseAOp (s : String) : Option Alias.AOp :=
+  match s.splitOn "," with
+  | ["a", l, v] => do pure (.append (← l.toNat?) (← parseVal v))
+  | ["s", l, i, v] => do pure (.setItem (← l.toNat?) (← parseInt i) (← parseVal v))
+  | ["p", l, i] => do pure (.pop (← l.toNat?) (← parseInt i))
+  | ["sl", l, a, b] => do pure (.slice (← l.toNat?) (← parseOpt a) (← parseOpt b))
+  | ["c", l] => do pure (.copy (← l.toNat?))
+  | ["e", l, o] => do pure (.extend (← l.toNat?) (← o.toNat?))
+  | ["k", l, r] => do pure (.concat (← l.toNat?) (← r.toNat?))
+  | ["x", l] => do pure (.clear (← l.toNat?))
+  | _ => none
+
+def parseAList (s : String) : Option (List Val) :=
+  match s.toList with
+  | 'L' :: rest => (splitNonEmpty (String.ofList rest) ",").mapM parseVal
+  | _ => none
+
+def renderAView (h : Alias.AHeap) : String :=
+  "/".intercalate ((Alias.view h).map (fun l => ",".intercalate (l.map (renderVal { objs := [], arrs := [] } 0))))
+
+def aliasDistinct (h : Alias.AHeap) : Bool :=
+  let ids := h.lists.map (·.arr)
+  ids.eraseDups.length == ids.length
+
+def runAlias (h : Alias.AHeap) : List Alias.AOp → List String
+  | [] => []
+  | op :: ops =>
+    let r := Alias.stepA (fun c _ => 2 * c) h op
+    let tag := match r.2 with
+      | .err _ => "e"
+      | _ => "o"
+    (tag ++ ";" ++ renderAView r.1 ++ ";" ++ (if aliasDistinct r.1 then "distinct" else "SHARED")) :: runAlias r.1 ops
+
 def handle : List String → String
+  | ["slicego", a, b, n] =>
+    match parseOpt a, parseOpt b, n.toNat? with
+    | some a, some b, some n =>
+      match resolveIntSliceGo a b n with
+      | .ok x y => "ok\t" ++ toString x ++ "\t" ++ toString y
+      | .err .type => "err\ttype"
+      | .err _ => "err\tslice"
+    | _, _, _ => "error\tbad-slicego"
+  | ["insact", i, n] =>
+    match parseInt i, n.toNat? with
+    | some i, some n =>
+      match insertAct i n with
+      | .prepend => "0"
+      | .append => toString n
+      | .shift k => toString k
+    | _, _ => "error\tbad-insact"
+  | ["alias", ls, ops] =>
+    let ls := if ls = "-" then "" else ls
+    let ops := if ops = "-" then "" else ops
+    match (splitNonEmpty ls ";").mapM parseAList, (splitNonEmpty ops ";").mapM parseAOp with
+    | some ls, some ops => "ok\t" ++ "|".intercalate (runAlias (Alias.mk ls) ops)
+    | none, _ => "error\tbad-lists"
+    | _, none => "error\tbad-ops"
   | ["seq", objs, ops] =>
     let objs := if objs = "-" then "" else objs
     let ops := if ops = "-" then "" else ops
